@@ -70,6 +70,8 @@ pub(crate) struct Driver {
     flags: DriverFlags,
     /// Keys leaked via `into_raw()` into io_uring user_data, freed on drop.
     in_flight: HashSet<usize>,
+    #[cfg(compio_verif)]
+    verif_id: u64,
     _p: PhantomData<ErasedKey>,
 }
 
@@ -141,6 +143,12 @@ impl Driver {
             pool: builder.create_or_get_thread_pool(),
             flags,
             in_flight: HashSet::new(),
+            #[cfg(compio_verif)]
+            verif_id: {
+                let id = crate::verif::next_driver_id();
+                crate::verif::emit(crate::verif::Kind::DriverNew, id, 0, 0);
+                id
+            },
             _p: PhantomData,
         })
     }
@@ -278,6 +286,13 @@ impl Driver {
         let cqueue = self.inner.completion();
         let has_entry = !cqueue.is_empty();
         for entry in cqueue {
+            #[cfg(compio_verif)]
+            crate::verif::emit(
+                crate::verif::Kind::Cqe,
+                entry.user_data(),
+                entry.flags() as u64,
+                entry.result() as i64,
+            );
             match entry.user_data() {
                 Self::CANCEL => {}
                 Self::NOTIFY => {
@@ -296,6 +311,12 @@ impl Driver {
                         let mut key = key.borrow();
                         let mut extra: crate::sys::Extra = IourExtra::new().into();
                         extra.set_flags(entry.flags());
+                        #[cfg(compio_verif)]
+                        crate::verif::emit_res(
+                            crate::verif::Kind::MultiItem,
+                            entry.user_data() as usize,
+                            &create_result(entry.result()),
+                        );
                         unsafe {
                             key.carrier
                                 .push_multishot(create_result(entry.result()), extra);
@@ -336,6 +357,11 @@ impl Driver {
                 .is_err()
             {
                 warn!("could not push AsyncCancel entry");
+                #[cfg(compio_verif)]
+                crate::verif::emit(crate::verif::Kind::CancelSqe, key.as_raw() as u64, 0, 0);
+            } else {
+                #[cfg(compio_verif)]
+                crate::verif::emit(crate::verif::Kind::CancelSqe, key.as_raw() as u64, 1, 0);
             }
         }
     }
@@ -346,6 +372,13 @@ impl Driver {
         self.push_raw(entry)?; // if push failed, do not leak the key. Drop it upon return.
         self.in_flight.insert(user_data);
         key.into_raw();
+        #[cfg(compio_verif)]
+        crate::verif::emit(
+            crate::verif::Kind::Submit,
+            user_data as u64,
+            0,
+            (self.verif_id << 32) as i64,
+        );
         Ok(())
     }
 
@@ -359,6 +392,8 @@ impl Driver {
                 }
                 Err(_) => {
                     drop(squeue);
+                    #[cfg(compio_verif)]
+                    crate::verif::pause(crate::verif::Point::IourOverflow);
                     match self.submit_auto(Some(Duration::ZERO), true) {
                         Ok(()) => {}
                         Err(e)
@@ -421,9 +456,23 @@ impl Driver {
         let waker = self.waker();
         let completed = self.completed_tx.clone();
         // SAFETY: we're submitting into the driver, so it's safe to freeze here.
+        #[cfg(compio_verif)]
+        let (verif_addr, verif_id) = (key.as_raw() as u64, self.verif_id);
+        #[cfg(compio_verif)]
+        crate::verif::emit(crate::verif::Kind::Submit, verif_addr, 2, (verif_id << 32) as i64);
         let mut key = unsafe { key.freeze() };
         let mut closure = move || {
+            #[cfg(compio_verif)]
+            {
+                crate::verif::emit(crate::verif::Kind::BlockingBegin, verif_addr, verif_id, 0);
+                crate::verif::pause(crate::verif::Point::BlockingBeforeRun);
+            }
             let res = catch_unwind_io(AssertUnwindSafe(|| key.as_mut().carrier.call_blocking()));
+            #[cfg(compio_verif)]
+            {
+                crate::verif::emit(crate::verif::Kind::BlockingEnd, verif_addr, verif_id, 0);
+                crate::verif::pause(crate::verif::Point::BlockingAfterRun);
+            }
             let _ = completed.send(Entry::new(key.into_inner(), res));
             waker.wake();
         };
@@ -462,7 +511,11 @@ impl Driver {
             self.flags.remove(DriverFlags::NEED_PUSH_NOTIFIER);
         }
 
+        #[cfg(compio_verif)]
+        crate::verif::pause(crate::verif::Point::IourBeforeWait);
         self.submit_auto(timeout, need_wait)?;
+        #[cfg(compio_verif)]
+        crate::verif::pause(crate::verif::Point::IourAfterWait);
 
         self.notifier.set_awake();
         self.poll_entries();
@@ -495,6 +548,13 @@ impl Drop for Driver {
         let mut cqueue = self.inner.completion();
         cqueue.sync();
         for entry in cqueue {
+            #[cfg(compio_verif)]
+            crate::verif::emit(
+                crate::verif::Kind::Cqe,
+                entry.user_data(),
+                entry.flags() as u64,
+                entry.result() as i64,
+            );
             match entry.user_data() {
                 Self::CANCEL | Self::NOTIFY => {}
                 key => {
@@ -513,11 +573,15 @@ impl Drop for Driver {
         // `malloc_consolidate(): unaligned fastbin chunk detected` /
         // `corrupted double-linked list` during thread shutdown.
         unsafe { ManuallyDrop::drop(&mut self.inner) };
+        #[cfg(compio_verif)]
+        crate::verif::emit(crate::verif::Kind::RingClosed, self.verif_id, 0, 0);
 
         // Free remaining in-flight keys. Safe now that the kernel is done.
         for user_data in self.in_flight.drain() {
             drop(unsafe { ErasedKey::from_raw(user_data) });
         }
+        #[cfg(compio_verif)]
+        crate::verif::emit(crate::verif::Kind::DriverDropEnd, self.verif_id, 0, 0);
     }
 }
 
